@@ -46,9 +46,17 @@ Theorem C18_single_edits_example :
 Proof. exact compare_examples. Qed.
 Print Assumptions C18_single_edits_example.
 
-(* deletions are only noticed while iterating over the services of the NEW layer: if
-   the new layer has no service at all nothing is reported (observed, recorded in DESIGN) *)
-Theorem C18_delete_all_refuted :
-  exists olds, olds <> [] /\ r_deleted (compare_layers [] olds) = [].
-Proof. exists [mkSvc 1 (Some [16]) 0 1]. split; [discriminate | reflexivity]. Qed.
-Print Assumptions C18_delete_all_refuted.
+(* a deleted service (name and request prefix gone) is reported as deleted -- also if the new
+   layer has no service left (before the fix commit that case was not reported at all) -- and
+   every reported deletion is a service of the old layer whose name vanished *)
+Theorem C18_deleted_service_is_reported : forall news olds s,
+  In s olds -> mem_name (sv_name s) news = false -> mem_prefix (sv_prefix s) news = false ->
+  In (sv_name s) (r_deleted (compare_layers news olds)).
+Proof. exact deleted_service_is_reported. Qed.
+Print Assumptions C18_deleted_service_is_reported.
+
+Theorem C18_reported_deletion_is_real : forall news olds n,
+  In n (r_deleted (compare_layers news olds)) ->
+  exists s, In s olds /\ sv_name s = n /\ mem_name n news = false.
+Proof. exact reported_deletion_is_real. Qed.
+Print Assumptions C18_reported_deletion_is_real.
